@@ -88,11 +88,11 @@ theorem dilateAdd_spec (dt : DT) (wf : dt.WF) (a b : Int) (ha : dt.InRange a) (h
       unfold DT.clamp
       by_cases hu : a + b ≤ dt.hi
       · rw [DT.wrap_in dt (a + b) (by omega)]
-        have : ¬ (a + b < a) := by omega
+        have : ¬ (b ≥ 0 ∧ a + b < a) := by omega
         simp only [this, if_false]; omega
       · rw [DT.wrap_above dt (a + b) (by unfold DT.card; omega)]
-        have : a + b - dt.card < a := by unfold DT.card; omega
-        simp only [this, if_true]; omega
+        have : b ≥ 0 ∧ a + b - dt.card < a := by unfold DT.card; omega
+        rw [if_pos this]; omega
 
 /-- `subm` is exact subtraction clamped to the dtype range, for every pair of values. -/
 theorem submElem_spec (dt : DT) (wf : dt.WF) (a b : Int) (ha : dt.InRange a) (hb : dt.InRange b) :
